@@ -66,6 +66,7 @@ func checkC16(r *core.Run) {
 	c16Retention(r, p)
 	c16ResumePosition(r, p, "R-C16-position")
 	c16RecordFromZero(r, p, "R-C16-layout")
+	noAppendOnPositioned(r, p, "R-C16-position", "lib/chain", 2)
 }
 
 func c16Layouts(r *core.Run, p *core.Program, wo, lb *ssa.Function) {
@@ -285,71 +286,7 @@ func c16Position(r *core.Run, p *core.Program, wo, lb *ssa.Function) {
 		f, _ := an.FieldOf(fa)
 		return st, f == "lib/chain.BlockDB."+field
 	}
-	// (a) loader: every path from a successful read back to the loop head passes maxidxfilepos += 136
-	var readBlk *ssa.BasicBlock
-	for _, c := range an.CallsTo(lb, false, "io.ReadFull") {
-		readBlk = c.Block()
-	}
-	inc := map[*ssa.BasicBlock]bool{}
-	an.Instrs(lb, func(i ssa.Instruction) {
-		if st, ok := isPosStore(i, "maxidxfilepos"); ok {
-			if bo, isB := st.Val.(*ssa.BinOp); isB && bo.Op == token.ADD {
-				if k, isC := an.ConstOf(bo.Y); isC && k.Int64() == 136 {
-					inc[st.Block()] = true
-				}
-			}
-		}
-	})
-	if readBlk == nil {
-		r.Fail(rule, "load/record-counted", p.Pos(lb.Pos()), "the 136-byte read was not found")
-	} else {
-		// loop head: the block that dominates readBlk and is a back-edge target
-		var head *ssa.BasicBlock
-		for _, b := range lb.Blocks {
-			for _, pr := range b.Preds {
-				if b.Dominates(pr) && b.Dominates(readBlk) {
-					head = b
-				}
-			}
-		}
-		// successor taken when the read succeeded: the one that is inside the loop body and not the exit
-		bad := ""
-		if head != nil {
-			// walk from readBlk's successors inside the loop, avoiding incrementing blocks; reaching the head again = a path that does not count the record
-			seen := map[*ssa.BasicBlock]bool{}
-			var st []*ssa.BasicBlock
-			for _, s := range readBlk.Succs {
-				st = append(st, s)
-			}
-			loop := an.LoopBlocks(lb)
-			for len(st) > 0 {
-				b := st[len(st)-1]
-				st = st[:len(st)-1]
-				if seen[b] || !loop[b] || inc[b] {
-					continue
-				}
-				seen[b] = true
-				if b == head {
-					bad = "a path from the record read back to the loop head does not advance the index position"
-					break
-				}
-				st = append(st, b.Succs...)
-			}
-			// which instruction takes that path: report the jump
-			if bad != "" {
-				for b := range seen {
-					for _, s := range b.Succs {
-						if s == head && b != readBlk {
-							bad += " (through " + p.Pos(an.InstrPos(b.Instrs[len(b.Instrs)-1])) + ")"
-						}
-					}
-				}
-			}
-		} else {
-			bad = "loading loop not recognised"
-		}
-		r.Check(bad == "" && len(inc) > 0, rule, "load/record-counted", p.Pos(lb.Pos()), "every record read advances the mirrored index position by 136, also when the record is skipped", bad)
-	}
+	c16RecordCounted(r, p, rule, lb)
 	// (b) writer: positions advance by what is written
 	okI, okD := false, false
 	an.Instrs(wo, func(i ssa.Instruction) {
@@ -1049,4 +986,87 @@ func ctlAcross(fn *ssa.Function, callee string) [][]ctlOutcome {
 	}
 	visit(fn, nil, 0)
 	return out
+}
+
+// c16RecordCounted: the loader mirrors the index file position while it reads: every 136-byte record read -
+// also one that is then skipped (flagged invalid) - advances the position by 136, so that positions of later
+// records and the position at which appending continues are the file's.
+func c16RecordCounted(r *core.Run, p *core.Program, rule string, lb *ssa.Function) {
+	isPosStore := func(i ssa.Instruction, field string) (*ssa.Store, bool) {
+		st, ok := i.(*ssa.Store)
+		if !ok {
+			return nil, false
+		}
+		fa, ok := st.Addr.(*ssa.FieldAddr)
+		if !ok {
+			return nil, false
+		}
+		f, _ := an.FieldOf(fa)
+		return st, f == "lib/chain.BlockDB."+field
+	}
+	// (a) loader: every path from a successful read back to the loop head passes maxidxfilepos += 136
+	var readBlk *ssa.BasicBlock
+	for _, c := range an.CallsTo(lb, false, "io.ReadFull") {
+		readBlk = c.Block()
+	}
+	inc := map[*ssa.BasicBlock]bool{}
+	an.Instrs(lb, func(i ssa.Instruction) {
+		if st, ok := isPosStore(i, "maxidxfilepos"); ok {
+			if bo, isB := st.Val.(*ssa.BinOp); isB && bo.Op == token.ADD {
+				if k, isC := an.ConstOf(bo.Y); isC && k.Int64() == 136 {
+					inc[st.Block()] = true
+				}
+			}
+		}
+	})
+	if readBlk == nil {
+		r.Fail(rule, "load/record-counted", p.Pos(lb.Pos()), "the 136-byte read was not found")
+	} else {
+		// loop head: the block that dominates readBlk and is a back-edge target
+		var head *ssa.BasicBlock
+		for _, b := range lb.Blocks {
+			for _, pr := range b.Preds {
+				if b.Dominates(pr) && b.Dominates(readBlk) {
+					head = b
+				}
+			}
+		}
+		// successor taken when the read succeeded: the one that is inside the loop body and not the exit
+		bad := ""
+		if head != nil {
+			// walk from readBlk's successors inside the loop, avoiding incrementing blocks; reaching the head again = a path that does not count the record
+			seen := map[*ssa.BasicBlock]bool{}
+			var st []*ssa.BasicBlock
+			for _, s := range readBlk.Succs {
+				st = append(st, s)
+			}
+			loop := an.LoopBlocks(lb)
+			for len(st) > 0 {
+				b := st[len(st)-1]
+				st = st[:len(st)-1]
+				if seen[b] || !loop[b] || inc[b] {
+					continue
+				}
+				seen[b] = true
+				if b == head {
+					bad = "a path from the record read back to the loop head does not advance the index position"
+					break
+				}
+				st = append(st, b.Succs...)
+			}
+			// which instruction takes that path: report the jump
+			if bad != "" {
+				for b := range seen {
+					for _, s := range b.Succs {
+						if s == head && b != readBlk {
+							bad += " (through " + p.Pos(an.InstrPos(b.Instrs[len(b.Instrs)-1])) + ")"
+						}
+					}
+				}
+			}
+		} else {
+			bad = "loading loop not recognised"
+		}
+		r.Check(bad == "" && len(inc) > 0, rule, "load/record-counted", p.Pos(lb.Pos()), "every record read advances the mirrored index position by 136, also when the record is skipped", bad)
+	}
 }
